@@ -566,7 +566,7 @@ func (dht *FullRT) GetClosestPeers(ctx context.Context, key string) ([]peer.ID, 
 					if _, ok := ipGroupCounts[ipGroup]; !ok {
 						ipGroupCounts[ipGroup] = make(map[peer.ID]struct{})
 					}
-					if len(ipGroupCounts[ipGroup]) >= dht.ipDiversityFilterLimit {
+					if _, counted := ipGroupCounts[ipGroup][p]; !counted && len(ipGroupCounts[ipGroup]) >= dht.ipDiversityFilterLimit {
 						// This ip group is already overrepresented, skip this peer
 						continue PeersLoop
 					}
